@@ -1434,18 +1434,39 @@ func (e *Engine) checkCutsAt(st *State, fr *Frame, atReturn bool) {
 		env := e.specEnv(st, fr.old, fr.fn, fr.contract, nil)
 		env.vars = fr.params
 		if a.Kind == "apply" {
-			for _, h := range e.instantiateLemma(env, a) {
-				st.assume(h)
-			}
+			// a lemma instance whose arguments cannot be evaluated on this path (nil pointer on an error
+			// path) is skipped: instances only add hypotheses
+			func() {
+				defer func() {
+					if r := recover(); r != nil {
+						if _, ok := r.(engineError); !ok {
+							panic(r)
+						}
+					}
+				}()
+				for _, h := range e.instantiateLemma(env, a) {
+					st.assume(h)
+				}
+			}()
 			continue
 		}
 		if a.Kind == "reach" {
 			// vacuity guard placed by the contract: this point is reachable (path condition satisfiable);
 			// the expression is an additional condition that must be satisfiable there (usually `true`)
-			c := st.sub(env.boolTerm(a.Expr))
-			s2 := st.fork()
-			s2.assume(c)
-			e.addCover(s2, "reach:"+a.Name)
+			func() {
+				defer func() {
+					if r := recover(); r != nil {
+						if _, ok := r.(engineError); !ok {
+							panic(r)
+						}
+						delete(st.cuts, a.Name) // not evaluable on this path (e.g. nil on an error path)
+					}
+				}()
+				c := st.sub(env.boolTerm(a.Expr))
+				s2 := st.fork()
+				s2.assume(c)
+				e.addCover(s2, "reach:"+a.Name)
+			}()
 			continue
 		}
 		if a.Kind == "fork" {
